@@ -182,6 +182,9 @@ func runClientOps(cf ccfg, ops []cop) []copResult {
 					err = cl.Disconnect()
 					err = nil // the result of the connection's Close is passed through; the model reports ok
 				case "R":
+					if cs := f.All(); len(cs) > 0 && o.closeErr {
+						cs[len(cs)-1].OnClose = func() error { return errors.New("fake: close failed") }
+					}
 					f.FailOn[f.NumCalls()] = !o.dialOK
 					err = cl.Reconnect()
 				case "H":
